@@ -28,7 +28,7 @@ pub fn run(ctx: &Ctx) -> i32 {
                 "rustls (client and peer) and the committed fixture certificates (valid until 2126) are trusted; the system clock lies inside their validity".into(),
                 "with both sides offering ALPN protocols without overlap rustls refuses the handshake: either outcome is accepted there".into(),
             ],
-            min_class_fraction: vec![("tls-stream-established", 0.1), ("tls-connect-refused", 0.2), ("plain-stream", 0.05), ("ipv6-literal", 0.1), ("peer-plaintext", 0.03), ("peer-truncated-handshake", 0.03)],
+            min_class_fraction: vec![("tls-stream-established", 0.06), ("tls-connect-refused", 0.2), ("plain-stream", 0.05), ("ipv6-literal", 0.1), ("peer-plaintext", 0.03), ("peer-truncated-handshake", 0.03)],
         },
     )
 }
